@@ -2,7 +2,8 @@
 (* C07, the helper operators the message types are built from, validated on    *)
 (* values produced by the real functions: BCD time <-> text (the formatted     *)
 (* 6-byte form), BCD phone rendering, fixed-width padding, GBK <-> UTF-8 (the   *)
-(* law only: GBK tables are not expressible here).                             *)
+(* round-trip law, agreement with the reference tables, and the structure of a  *)
+(* GBK string: the tables themselves are not transcribed).                      *)
 EXTENDS Bytes, TLC, Json, IOUtils
 Trace == ndJsonDeserialize(IOEnv.VERIF_TRACE)
 VARIABLE l
@@ -17,5 +18,19 @@ Pad(s, w) == IF Len(s) >= w THEN Sub(s, 1, w) ELSE s \o [i \in 1..(w - Len(s)) |
 BcdTime == l = 0 \/ E.ev # "bcdtime" \/ (Mat(E.text) = TimeText(E.bcd) /\ Mat(E.back) = Mat(E.bcd))
 Bcd2Dec == l = 0 \/ E.ev # "bcd2dec" \/ Mat(E.digits) = Mat(PhoneDigits(E.bcd))
 Fill == l = 0 \/ E.ev # "fill" \/ Mat(E.out) = Mat(Pad(E.text, E.w))
-GbkLaw == l = 0 \/ E.ev # "gbk" \/ Mat(E.back) = Mat(E.utf8)
+\* UTF-8 code points and GBK code units (00..7F and 80 single, lead 81..FE + trail 40..FE except 7F), as index sets of their first bytes
+PLen(b) == IF b < 128 THEN 1 ELSE IF b < 224 THEN 2 ELSE IF b < 240 THEN 3 ELSE 4
+ULen(b) == IF b <= 128 THEN 1 ELSE 2
+RECURSIVE PStarts(_, _)
+PStarts(s, i) == IF i > Len(s) THEN <<>> ELSE <<i>> \o PStarts(s, i + PLen(s[i]))
+RECURSIVE UStarts(_, _)
+UStarts(s, i) == IF i > Len(s) THEN <<>> ELSE <<i>> \o UStarts(s, i + ULen(s[i]))
+GbkStructure(u, g) ==
+    LET ps == PStarts(u, 1) us == UStarts(g, 1) IN
+    /\ Len(ps) = Len(us)
+    /\ \A k \in 1..Len(us) : LET i == us[k] j == ps[k] IN
+          /\ (g[i] > 128 => i < Len(g) /\ g[i] # 255 /\ g[i + 1] >= 64 /\ g[i + 1] # 127 /\ g[i + 1] # 255)
+          /\ (u[j] < 128 <=> g[i] < 128) /\ (u[j] < 128 => g[i] = u[j])
+          /\ (g[i] = 128 <=> (j + 2 <= Len(u) /\ u[j] = 226 /\ u[j + 1] = 130 /\ u[j + 2] = 172))     \* the euro sign
+GbkLaw == l = 0 \/ E.ev # "gbk" \/ (Mat(E.back) = Mat(E.utf8) /\ Mat(E.gbk) = Mat(E.ref) /\ GbkStructure(Mat(E.utf8), Mat(E.gbk)))
 =============================================================================
